@@ -159,7 +159,10 @@ func runC09(r *Rng, n int, replay string) {
 			}
 			cands := []string{base, base + sep, base + sep + "..", base + sep + sep + "x", rootOS + "x" + sep + "a", rootOS, rootOS + sep,
 				strings.TrimPrefix(base, effVol), "Z:" + strings.TrimPrefix(base, effVol), strings.TrimLeft(strings.TrimPrefix(base, effVol), sep),
-				rootOS + sep + ".." + sep + "x", rootOS + sep + "." + sep + "a"}
+				rootOS + sep + ".." + sep + "x", rootOS + sep + "." + sep + "a",
+				// an empty first element: a doubled separator right after the volume
+				effVol + sep + sep + "x" + sep + "a", effVol + sep + sep + "a", effVol + sep + strings.TrimPrefix(base, effVol),
+				effVol + sep + sep + sep + "b"}
 			p := cands[r.Intn(len(cands))]
 			pvol := cv.vn(p)
 			abs := strings.HasPrefix(strings.TrimPrefix(p, pvol), sep) // filepath.IsAbs for the convention
